@@ -40,7 +40,7 @@ def plan(tier, seed):
 def mandatory_bins(tier):
     b = ["tagtype_%02x" % t for t in R.TAGTYPES] + ["ignored_%02x" % t for t in R.IGNORED]
     b += ["fmt_blob", "fmt_bf2compatible", "fmt_memoryimage", "page_crossing", "group_per_page", "one_group_all_pages", "markers_page_start_only", "markers_extra_start", "markers_no_start", "debug_firmware", "release_firmware", "no_firmware_comment",
-          "multi_group_filter", "special_case_filter", "crc", "reboot", "versiondesc", "line_checksum_byte", "enforce_off_without_marker", "filter_comment_checked", "five_sections", "image_ge_64k", "source_is_a_file_name", "stream_positioned_after_other_content", "zero_length_data_line_inside_data", "instruction_separator_tab", "instruction_separator_several_blanks", "last_page_of_a_tag_type_range", "crc_value_without_leading_zeros_or_lower_case", "firmware_name_with_blanks_or_short"]
+          "multi_group_filter", "special_case_filter", "crc", "reboot", "versiondesc", "line_checksum_byte", "enforce_off_without_marker", "filter_comment_checked", "five_sections", "image_ge_64k", "source_is_a_file_name", "stream_positioned_after_other_content", "zero_length_data_line_inside_data", "instruction_separator_tab", "instruction_separator_several_blanks", "last_page_of_a_tag_type_range", "crc_value_without_leading_zeros_or_lower_case", "firmware_name_with_blanks_or_short", "two_images_of_one_tag_type_without_instructions_between", "instruction_hex_values_not_in_upper_case_single_blank_form"]
     b += ["reject:" + c for c in REJECT_CLASSES] + ["mem_gap_before_last_line", "mem_many_extents"]
     return b
 
@@ -132,6 +132,11 @@ def gen_section(rng, ctx, base, big=False):
         sec.marker_style = rng.choice(("page_start_only", "extra_start", "no_start"))
         if sec.marker_style != "page_start_only" or any((a >> 16) != (lines[0][0] >> 16) for a, _ in lines):
             ctx.bin("markers_" + sec.marker_style)
+    if rng.random() < 0.25:
+        # the hex values of the instruction lines written in another of the forms the hex reader accepts (lower case, no blanks,
+        # dashes, colons, double blanks): the same bytes
+        sec.hex_style = rng.choice(("lower", "nospace", "dashes", "double_space", "colons_lower"))
+        ctx.bin("instruction_hex_values_not_in_upper_case_single_blank_form")
     r = rng.random()
     if r < 0.3:
         sec.sep = rng.choice(("\t", "  ", " \t", "\t\t ", "   "))
@@ -356,6 +361,19 @@ def run_import(ns, ctx, spec):
                     s.lines = [(a, p_) for a, p_ in s.lines if (a >> 16) < pages]
                     ctx.bin("last_page_of_a_tag_type_range")
             secs.append(s)
+            if idx % 9 == 4 and k == nsec - 1 and all((a >> 16) == 0 for a, _ in s.lines):
+                # a second image of the SAME tag type right after the first, no instruction line in between (two firmware images for
+                # the same filter): two components; the first one carries no reboot / checksum / version instruction, so that
+                # nothing but the restart of the tag type separates the two
+                s.reboot = False
+                s.crc = None
+                s.versiondesc = None
+                img = rng.randbytes(rng.randrange(1, 900))
+                lines2 = R.cut_image(rng, img)
+                s2 = R.Section(base, lines2, s.filt, s.protocol, None, None, False, False, s.checksum)
+                s2.bare = True
+                secs.append(s2)
+                ctx.bin("two_images_of_one_tag_type_without_instructions_between")
             ctx.bin("tagtype_%02x" % base)
             ctx.bin("fmt_blob" if R.TAGTYPES[base][2] == R.FMT_BLOB else "fmt_bf2compatible")
         if mode in (0, 1, 2):
